@@ -253,8 +253,8 @@ func c01Stop(c *core.Ctx, pkg *packages.Package) {
 		return
 	}
 	t := an.Table{G: g, From: an.Loc{B: body, I: 0}, Opts: an.ExecOpts{Header: header}, FreeUnknown: true,
-		Atoms: []an.Atom{{Name: "found", Values: []string{"lt", "eq", "gt"}}, {Name: "examined", Values: []string{"lt", "eq", "gt"}}},
-		Binder: &an.Binder{Fn: fn, Cmp: map[string]string{"p1[keyof(p0)]|p3": "found", "p2[keyof(p0)]|each(p0)": "examined"}},
+		Atoms:   []an.Atom{{Name: "found", Values: []string{"lt", "eq", "gt"}}, {Name: "examined", Values: []string{"lt", "eq", "gt"}}},
+		Binder:  &an.Binder{Fn: fn, Cmp: map[string]string{"p1[keyof(p0)]|p3": "found", "p2[keyof(p0)]|each(p0)": "examined"}},
 		Targets: no, Names: []string{"keep looking"},
 		Want: func(r an.Row, _ int) an.Tri { return an.FromBool(r["found"] == "lt" && r["examined"] == "lt") }}
 	res := t.Run()
@@ -525,7 +525,7 @@ func c01Filter(c *core.Ctx, pkg *packages.Package) {
 			forms := map[string]bool{
 				"(" + age + " <= p0)": true, "(p0 >= " + age + ")": true,
 				"!(" + age + " > p0)": true, "!(p0 < " + age + ")": true,
-				"!p1.After(time.Unix(recv.Timestamp, 0).Add(p0))": true,
+				"!p1.After(time.Unix(recv.Timestamp, 0).Add(p0))":  true,
 				"(time.Since(time.Unix(recv.Timestamp, 0)) <= p0)": false,
 			}
 			var rets []string
